@@ -18,6 +18,7 @@ type Env struct {
 	// oldLookup resolves names inside old(...): parameters at their entry values
 	oldLookup func(name string) (Val, bool)
 	visitedComp func() string
+	lastResult  func(name string) (Val, bool)
 	st     *State
 	old    *State
 	bound  map[string]Val
@@ -724,6 +725,15 @@ func (env *Env) call(x *Expr) Val {
 			sfail("addr(): field %s not found directly", ax.Name)
 		}
 		return Val{T: e.fa(e.structKey(p.Elem()), f.Name(), base.T), Ty: types.NewPointer(f.Type())}
+	case "lastresult":
+		if x.Args[0].Op != "str" || env.lastResult == nil {
+			sfail("lastresult needs a string literal callee name at a program point")
+		}
+		v, ok := env.lastResult(x.Args[0].Name)
+		if !ok {
+			sfail("lastresult(%q): no such call before this point", x.Args[0].Name)
+		}
+		return v
 	case "ptr":
 		// ptr("T", x): view an integer (e.g. a ghost map value) as a pointer of the given type
 		if x.Args[0].Op != "str" {
@@ -756,6 +766,16 @@ func (env *Env) call(x *Expr) Val {
 		f := e.sc.declFun("bval", []string{"(Array Int " + e.sortOf(sl.Elem()) + ")", "Int", "Int"}, "Int")
 		c := e.elemComp(sl.Elem())
 		return Val{T: fmt.Sprintf("(%s (select %s (s_arr %s)) (s_off %s) (s_len %s))", f, e.get(env.st, c), a.T, a.T, a.T), Ty: mathInt}
+	case "substr":
+		// substr(s, lo, hi): the term the engine uses for the Go expression s[lo:hi] on strings
+		a, lo, hi := env.tr(x.Args[0]), env.tr(x.Args[1]), env.tr(x.Args[2])
+		f := e.sc.declFun("substr", []string{"Int", "Int", "Int"}, "Int")
+		return Val{T: fmt.Sprintf("(%s %s %s %s)", f, a.T, lo.T, hi.T), Ty: types.Typ[types.String]}
+	case "concat":
+		// concat(a, b): the term the engine uses for the Go expression a + b on strings
+		a, b := env.tr(x.Args[0]), env.tr(x.Args[1])
+		f := e.sc.declFun("sconcat", []string{"Int", "Int"}, "Int")
+		return Val{T: fmt.Sprintf("(%s %s %s)", f, a.T, b.T), Ty: types.Typ[types.String]}
 	case "visited":
 		if env.visitedComp == nil {
 			sfail("visited() outside a map-range loop")
